@@ -5,6 +5,7 @@ import Mieru.Proofs.Counter
 import Mieru.Proofs.CounterSearch
 import Mieru.Proofs.Quota
 import Mieru.Proofs.Acct
+import Mieru.Proofs.MetricsDump
 /-!
 # C19 — accounting is conserved by compaction; quotas bind exactly the user who exceeded them
 
@@ -426,6 +427,53 @@ theorem session_metric_registration :
        ("s.downloadBytes", "fmt.Sprintf(metrics.UserMetricGroupFormat, (*s.block.Load()).BlockContext().UserName)",
         "metrics.UserMetricDownloadBytes", "metrics.COUNTER_TIME_SERIES")] := by decide
 
+
+/-! ## The dump / load FILE path (`DumpMetricsNow`, `LoadMetricsFromDump` with its two passes) -/
+
+section dumpfile
+open Mieru.MetricsDump Mieru.Proofs.MetricsDump
+
+/-- Loading a dump never decreases a total — for EVERY registry and EVERY dump (hand-crafted ones
+    included: values off, histories unsorted, negative values, unknown / duplicated / unnamed groups
+    and metrics, mismatching types): the sum of all counters does not decrease, and every counter that
+    was registered is still registered under the same group and name, is still the same kind of
+    counter, and its value is not smaller than before. -/
+theorem load_never_decreases_total (r : Registry) (d : Dump) (now : Int) :
+    total r ≤ total (loadAll r d now) ∧
+    ∀ g name c, getMetric r g name = some (.counter c) →
+      ∃ c', getMetric (loadAll r d now) g name = some (.counter c') ∧ c.value ≤ c'.value ∧ c'.ts = c.ts := by
+  have h := loadAll_ext r d now
+  refine ⟨RExt_total h, ?_⟩
+  intro g name c hc
+  obtain ⟨m', hm', hle⟩ := RExt_get h g name _ hc
+  cases m' with
+  | counter c' => exact ⟨c', hm', hle⟩
+  | gauge v => simp [MLe] at hle
+
+/-- … and gauges are never touched by a load. -/
+theorem load_keeps_gauges (r : Registry) (d : Dump) (now : Int) (g name : String) (v : Int)
+    (hg : getMetric r g name = some (.gauge v)) : getMetric (loadAll r d now) g name = some (.gauge v) := by
+  obtain ⟨m', hm', hle⟩ := RExt_get (loadAll_ext r d now) g name _ hg
+  cases m' with
+  | counter c' => simp [MLe] at hle
+  | gauge v' => simp only [MLe] at hle; rw [hm', hle]
+
+/-- Dump followed by load preserves the history — what is proved in general is the per-counter
+    statement: the message `ToMetricPB` produces for a counter, loaded twice (the two passes) into that
+    same counter, leaves the value and, for a time-series counter, the history LIST (entries and their
+    order) exactly as they were; only the operation counter advances (4 + 2·4). For whole registries
+    see the evaluated instances below and the comparison run on the real files (c19_dump.go); the
+    general composition over a registry without duplicate names is not proved. -/
+theorem dump_then_load_preserves_history (c : Counter) (name : String) (now1 now2 : Int) :
+    loadMetric name (loadMetric name (toMetricPB name (.counter c)).1 (toMetricPB name (.counter c)).2 now1)
+      (toMetricPB name (.counter c)).2 now2 = .counter (reloaded c) ∧
+    (reloaded c).value = c.value ∧ (reloaded c).ts = c.ts ∧ (c.ts = true → (reloaded c).hist = c.hist) ∧
+    (reloaded c).op = c.op + 12 := by
+  refine ⟨idle_reload c name now1 now2, rfl, rfl, ?_, rfl⟩
+  intro h; simp [reloaded, h]
+
+end dumpfile
+
 /-! ## Regenerated structure of Read / Write / inputData / checkQuota / rollUp / DeltaBetween -/
 
 /-- `Session.Read`: the only `return` with a non-zero count is the final `n, nil`, directly preceded
@@ -580,5 +628,25 @@ example :
                           else if u = "c" then some ⟨[⟨1000, 99999999999, 0⟩], []⟩ else none }
     refused sv "a" (2000 * nsPerMs) = true ∧ refused sv "b" (2000 * nsPerMs) = false ∧
     refused sv "c" (2000 * nsPerMs) = false ∧ refused sv "" (2000 * nsPerMs) = false := by decide
+
+section dumpfile_examples
+open Mieru.MetricsDump
+
+/-- a registry with two groups (a time-series counter with a rolled-up history, a plain counter, a gauge) -/
+def exReg : Registry :=
+  [⟨"user-a", [("up", .counter ⟨7, true, [⟨60000, 3, 2⟩, ⟨125000, 4, 0⟩], 5⟩), ("n", .counter ⟨9, false, [], 2⟩), ("g", .gauge 42)]⟩,
+   ⟨"user-b", [("up", .counter ⟨0, true, [], 0⟩)]⟩]
+
+/-- dump then load into the registry itself: every counter as before, 12 operations later -/
+example : flatten (loadAll (dumpAll exReg).1 (dumpAll exReg).2 0) =
+    [("user-a", "up", true, 7, 17, [⟨60000, 3, 2⟩, ⟨125000, 4, 0⟩]), ("user-a", "n", false, 9, 14, []),
+     ("user-b", "up", true, 0, 12, [])] := by rfl
+
+/-- … into an EMPTY registry: the first pass registers (gauges are not), the second loads -/
+example : flatten (loadAll [] (dumpAll exReg).2 0) =
+    [("user-a", "up", true, 7, 4, [⟨60000, 3, 2⟩, ⟨125000, 4, 0⟩]), ("user-a", "n", false, 9, 4, []),
+     ("user-b", "up", true, 0, 4, [])] := by rfl
+
+end dumpfile_examples
 
 end Mieru.C19
